@@ -145,9 +145,16 @@ package ratelimitmw
 //@   requires MW(mw) && req != nil
 //@   modifies heap
 //@   ensures ri != nil && DRValid(ri.DeviceResult)
+//@ pred ecsOptsNonNil(m *dns.Msg) = forall i int :: 0 <= i && i < len(m.Extra) && isOPT(m.Extra[i]) ==> optAt(m, i) != nil &&
+//@        (forall j int :: 0 <= j && j < len(optAt(m, i).Option) && isptr(optAt(m, i).Option[j], dns.EDNS0_SUBNET) ==> ref(optAt(m, i).Option[j]) != 0)
+//@ func (*Middleware).locationData
+//@   modifies nothing
 //@ func (*Middleware).location
-//@   requires MW(mw) && req != nil
-//@   modifies heap
+//@   property C05
+//@   requires MW(mw) && req != nil && ecsOptsNonNil(req)
+//@   modifies nothing
+//@   ensures only-a-malformed-option-is-an-error: err != nil ==> errAs(err, ptrtag(dnsmsg.BadECSError)) && ecs == nil
+//@   ensures err == nil && ecs != nil ==> fresh(ecs) && ecs.Subnet != zero(netip.Prefix)
 
 //@ func (*Middleware).processLocationErr
 //@   property C05
@@ -156,11 +163,13 @@ package ratelimitmw
 //@   ensures err != nil
 //@   ensures at-most-one-formerr: writes[rw] <= old(writes[rw]) + 1 &&
 //@             (writes[rw] == old(writes[rw]) + 1 ==> wroteRcode[rw] == 1 && wroteId[rw] == old(req.Id))
+//@   ensures malformed-option-answered-with-formerr: errAs(origErr, ptrtag(dnsmsg.BadECSError)) ==> writes[rw] == old(writes[rw]) + 1 && wroteRcode[rw] == 1
 //@   ensures forall h dnsserver.Handler :: served[h] == old(served[h])
 
 //@ func (*Middleware).Wrap$1
-//@   property C10 C03
-//@   requires MW(mw) && next != nil && rw != nil && req != nil
+//@   property C10 C03 C05
+//@   requires MW(mw) && next != nil && rw != nil && req != nil && ecsOptsNonNil(req)
+//@   atcall processLocationErr assert only-a-malformed-subnet-option-ends-here: errAs(err, ptrtag(dnsmsg.BadECSError))
 //@   modifies heap, rlDrop, rlAllow, rlErr, rlCounted, prlResult, prlCounted, chas, cval, rk, rlog, served, servedReq, servedRW, servedErr,
 //@            writes, wroteReq, wroteResp, wroteId, wroteRcode, wroteNQ, wroteQ, truncSize, rlStage, accessChecks, lastAccessBlocked
 //@   ensures accessChecks <= old(accessChecks) + 1 && rlStage <= old(rlStage) + 1
